@@ -33,10 +33,14 @@ THEOREMS = [
     "Typedpy.C07.deser_aggregate_shape",
     "Typedpy.C07.sync_in_region",
     "Typedpy.C07.mapper_round_trip_region",
+    "Typedpy.C07.step_ok_of_plain",
     "Typedpy.C07.region_example",
     "Typedpy.C07.region_all_dict_example",
     "Typedpy.C07.region_nested_entry_example",
+    "Typedpy.C07.region_enum_everywhere_example",
     "Typedpy.C07.mro_collection_example",
+    "Typedpy.C07.serC_eq_ser",
+    "Typedpy.C07.map_values_example",
     "Typedpy.C07.camel_idempotent_ascii",
     "Typedpy.C07.mapper_round_trip_region_ascii",
     "Typedpy.C07.mapper_round_trip_K",
@@ -65,9 +69,13 @@ RULE = ("class hierarchies (1-3 levels of single inheritance, fresh classes per 
         "Deserializer.deserialize; a stream of classes that also define _deserialization_mapper (a copy of the "
         "serialization mapper, or a different one: then compared with the model only); a stream of classes with SEVERAL "
         "BASES (3-5 class statements, diamonds, each with own fields and mapper attribute; the Lean model computes the "
-        "C3 linearisation and collects the attributes along it); an ORACLE-ONLY stream of classes holding structures as "
+        "C3 linearisation and collects the attributes along it); a stream of classes holding structures as Map values next to directly / Array-nested ones, "
+        "full mapper vocabulary, keep_undefined None/True/False — compared with the Lean model (class-directed serializer); an "
+        "ORACLE-ONLY stream of classes holding structures as "
         "Map values (Map[String, V], Array[Map[String, V]], V with a nested class, safe mappers only: specified document "
-        "and round trip on the real code); 40% of the cases carry a HISTORY of 1-3 earlier calls in the same "
+        "and round trip on the real code); an ORACLE-ONLY stream of FunctionCall mapper values (one FunctionCall without / with "
+        "field-name args, optional rename of another field, top / nested / Array-nested, explicit mapper= or class-level, "
+        "camel on/off: specified document and round trip with the inverse function); 40% of the cases carry a HISTORY of 1-3 earlier calls in the same "
         "process on the same class objects (same class with the other / same camel flag, same / other override, "
         "a nested class serialized on its own first), plus a directed stream of [camel, plain, camel] and [plain, "
         "camel] histories per class (process-wide cache aggregated_mapper_by_class); every call of a history is "
@@ -75,7 +83,7 @@ RULE = ("class hierarchies (1-3 levels of single inheritance, fresh classes per 
         "files under a key the model files too must hold the model's aggregate) and judged by the oracle. Non-trivial = "
         "some mapper, camel flag or explicit mapper present; distinct by sha256 of the canonical case line")
 ASSUMPTIONS = [
-    "rename-only mappers: no FunctionCall / Constant values; structures stored as Map values are outside the Lean model (oracle-only stream)",
+    "the Lean model is rename-only: no FunctionCall / Constant values (FunctionCall: oracle-only stream); structures stored as Map values are in the Lean model but outside its round-trip theorems and specification document (their round trip is judged by the oracle-only stream)",
     "scalar fields are Integer fields; Set[...] fields are compared order-insensitively; no compact form",
     "PYTHONHASHSEED=0 (the order of instance attributes, which decides the winner of a key collision, comes from the constructor signature)",
     "entry points: Deserializer(cls, ...).deserialize(doc) with its default keep_undefined or an explicit one, and deserialize_structure(..., keep_undefined=False); an explicit keep_undefined=True (and deserialize_structure's default) deliberately keeps every key that is not a field name, mapped keys included (pinned by typedpy's test_custom_mapper_keeps_undefined_attributes), so it is compared with the model but is not an entry point of the round-trip claim",
@@ -105,6 +113,8 @@ def judge(case, impl, model):
     """the main call and every call of its history are judged alike"""
     if case.get("oracle") == "map":
         return S.judge_map(case, impl)
+    if case.get("oracle") == "fc":
+        return S.judge_fc(case, impl)
     cd = case["cls"]
     pre = case.get("pre") or []
     hist = ""
@@ -149,7 +159,7 @@ def judge_call(cd, case, impl, model, hist):
     real_doc = S.wire_to_py(impl["doc"])
     spec_doc = S.wire_to_py(model["spec"])
     # ---- key-set law at every level (incl. DoNotSerialize absent, no collision the mapper does not make)
-    if real_doc != spec_doc:
+    if real_doc != spec_doc and not S.has_maps(cd):       # the specification document has no Map values
         fails.append((keyset_key(real_doc, spec_doc),
                       f"serialized document (camel_case_convert={case['camel']}) is not the image of the populated "
                       "fields under the aggregated mapping: real " + json.dumps(real_doc)[:300] + " specified "
